@@ -103,8 +103,9 @@ fn gen_ind(s: &mut Src) -> IndCase {
             p.tok(b"obj", true, true);
         }
         p.value(&val);
-        p.allow_comments = false;
+        // a comment may stand between the dictionary and the keyword like between any two tokens (7.2.3), not after it
         p.tok(b"stream", true, true);
+        p.allow_comments = false;
         let eol = p.s.alt(2, &["stream_lf", "stream_crlf"]);
         p.raw(if eol == 0 { b"\n" } else { b"\r\n" });
         p.raw(&data);
